@@ -216,3 +216,90 @@ def c19(prop, tier):
     log('  status: %d behaviours, %d steps, %d comparisons, %d violations, drift %d' % (
         res['behaviours'], res['steps'], res['comparisons'], len(res['violations']), res['stats'].get('drift', 0)))
     return ck.finish()
+
+
+# ---------------------------------------------------------------------------
+# Replicator: C11 (cancellation) and C10 (refused entries)
+
+DAGS = {
+    'A': dict(hashes='{1,2,3,4}', links='LinksDef', heads='HeadsA', local='{2,3,4}', bad='{}',
+              jl={'1': [], '2': [1], '3': [1, 2], '4': [1, 2]}, jh={'1': [3], '2': [2, 4], '3': [3, 4]}, jbad=[]),
+    'B': dict(hashes='{1,2,3,4,5}', links='LinksB', heads='HeadsB', local='{3,4}', bad='{2,5}',
+              jl={'1': [], '2': [], '3': [1], '4': [1, 5], '5': []}, jh={'1': [2, 3], '2': [4, 3, 2], '3': [3, 4]}, jbad=[2, 5]),
+}
+
+
+def rp_cfg(name, spec, dag, conc, cancels, pinned, invs='NoWedge NoHang SemOK QueueMatchesWorkers NoDeadWorkers', maxw=10):
+    d = DAGS[dag]
+    return (name, '''SPECIFICATION %s
+CONSTANTS Hash = %s  Links <- %s  Local = %s  Bad = %s  NReq = 3  ReqHeads <- %s  Conc = %d  MaxCancel = %d  MaxW = %d  Pinned = %s
+INVARIANTS %s
+CHECK_DEADLOCK FALSE
+''' % (spec, d['hashes'], d['links'], d['local'], d['bad'], d['heads'], conc, cancels, maxw, 'TRUE' if pinned else 'FALSE', invs))
+
+
+RP_KINDS = {'C11': {'wedged', 'missing', 'view-stale'}, 'C10': {'wedged', 'missing', 'bad-merged', 'view-stale'}}
+
+
+def run_replicator(ck, prop, tier, dag, cancels, n_sim, depth):
+    thorough = tier == 'thorough'
+    d = DAGS[dag]
+    r = vlib.tlc_check('MCReplicator.tla', rp_cfg('Replicator.%s.cfg' % dag, 'Spec', dag, 2, cancels, False), '%s-rp-%s' % (prop, dag), timeout=900)
+    ck.require_model_ok(r, 'Replicator (repaired design) dag %s, concurrency 2, %d cancels' % (dag, cancels))
+    log('  TLC Replicator %s: %d distinct / %d generated, %.0fs' % (dag, r['distinct'], r['generated'], r['wall']))
+    if thorough:
+        r1 = vlib.tlc_check('MCReplicator.tla', rp_cfg('Replicator.%s.c1.cfg' % dag, 'Spec', dag, 1, cancels, False), '%s-rp-%s-c1' % (prop, dag), timeout=900)
+        ck.require_model_ok(r1, 'Replicator dag %s, concurrency 1' % dag)
+    bs, mutants = [], []
+    m = vlib.tlc_check('SimReplicator.tla', rp_cfg('Replicator.%s.pinned.cfg' % dag, 'SimSpec', dag, 2, cancels, True, invs='NoWedge'), '%s-rp-%s-pinned' % (prop, dag))
+    ck.add_tlc(m, 'Replicator as pinned (mutant specification) dag %s' % dag)
+    if m.get('violated') == 'NoWedge' and m.get('trace'):
+        bs.append({'id': 'pinned-counterexample-%s' % dag, 'steps': m['trace']})
+        mutants.append('pinned-counterexample-%s' % dag)
+    else:
+        ck.inconclusive.append('mutant specification (Pinned, dag %s) not refuted by TLC: vacuity guard failed' % dag)
+    for conc in (1, 2):
+        sims, _ = vlib.tlc_simulate('SimReplicator.tla', rp_cfg('Replicator.%s.sim.cfg' % dag, 'SimSpec', dag, conc, cancels, False, invs='SemOK'),
+                                    '%s-rp-%s-sim%d' % (prop, dag, conc), n_sim, depth, SEED * 7 + conc)
+        bs += sims
+    for b in bs:
+        for st in b['steps']:
+            pass
+        acts = [s['action'] for s in b['steps']]
+        if ('Cancel' in acts) or (dag == 'B' and 'JoinBatch' in acts):
+            ck.distinct.add(vlib.beh_signature(b))
+    inp = {'property': prop, 'seed': SEED, 'dag': dag, 'req_heads': d['jh'], 'nreq': 3, 'bad': d['jbad'], 'links': d['jl'],
+           'behaviours': bs, 'mutant': mutants}
+    res = vlib.run_vh('replicator', inp, tag='%s-rp-%s' % (prop, dag), timeout=600 if tier == 'quick' else 3000)
+    allv = res.get('violations', [])
+    res['violations'] = [v for v in allv if v['kind'] in RP_KINDS[prop]]
+    byid = {b['id']: b for b in bs}
+
+    def payload(v):
+        b = byid.get(v['behaviour'])
+        return {'command': 'replicator', 'input': dict(inp, behaviours=[b] if b else []), 'violation': v, 'kinds': sorted(RP_KINDS[prop])}
+    ck.add_harness(res, payload, 'replicator replay %s' % dag)
+    if not res.get('inconclusive'):
+        ck.traces_validated += res.get('behaviours', 0)
+    log('  replicator %s: %d behaviours, %d steps, %d violations, drift %d' % (dag, res['behaviours'], res['steps'], len(res['violations']), res['stats'].get('drift', 0)))
+    return res
+
+
+def c11(prop, tier):
+    ck = Check(prop, tier)
+    thorough = tier == 'thorough'
+    ck.rule = ('behaviours of spec/Replicator.tla (3 requests over a chain with refs and a fork, workers gated before the semaphore, '
+               'before and after the fetch; Cancel at any step) forced on a real store, then run to rest and the final uncancelled '
+               'request issued again; non-trivial = behaviour containing a Cancel')
+    run_replicator(ck, prop, tier, 'A', 2, 100 if thorough else 16, 40)
+    return ck.finish()
+
+
+def c10(prop, tier):
+    ck = Check(prop, tier)
+    thorough = tier == 'thorough'
+    ck.rule = ('announcements mixing valid heads with a non-writer\'s head and with a valid-looking head that links to a non-writer\'s '
+               'entry (real entries built with a second keystore), every list position of the specification\'s request table and '
+               'every fetch-completion order of the simulated behaviours, then honest re-announcement; non-trivial = a batch containing a refused entry is joined')
+    run_replicator(ck, prop, tier, 'B', 0, 120 if thorough else 20, 40)
+    return ck.finish()
